@@ -27,6 +27,10 @@ def run(chk: Check) -> None:
     # installed, and the process leaves FINISHED / KILLED for EXCEPTED (obligation shared with C16)
     from .c16 import tolerated_broadcast_failures
     tolerated_broadcast_failures(chk, 'ESC-terminal-entry')
+    # "no late scheduled callback changes a terminal state": a failing callback fails the process through the guarded fail() event in the same loop callback in
+    # which the process was found alive (shared with C03)
+    from .c03 import callback_failure_fails_process
+    callback_failure_fails_process(chk, 'ATOM-terminal-guard')
 
 
 def terminal_hooks_cannot_fail_on_futures(chk: Check) -> None:
